@@ -286,8 +286,21 @@ fn cmd_check(prop: &str, tier: Tier, part: bool) -> i32 {
         for (k, v) in &b.probes {
             *probes.entry(k.clone()).or_insert(0) += v;
         }
-        for c in b.samples.iter().take(3) {
-            samples.push(json!({"scenario": s.name, "case": c}));
+        // samples: actual cases of this run; very large ones are summarised so the evidence stays readable
+        let mut taken = 0;
+        for c in b.samples.iter() {
+            let j = json!(c);
+            let text = j.to_string();
+            if text.len() <= 6000 {
+                samples.push(json!({"scenario": s.name, "case": j}));
+                taken += 1;
+            } else if taken == 0 {
+                samples.push(json!({"scenario": s.name, "case_summary": format!("{} packets, family {:?}, serialised case is {} bytes: {}…", c.packets.len(), c.fam, text.len(), &text[..text.char_indices().nth(600).map(|x| x.0).unwrap_or(text.len())])}));
+                taken += 1;
+            }
+            if taken >= 3 {
+                break;
+            }
         }
         rules.push(format!("{}: {}", s.name, s.rule));
         per_scn.push(json!({
